@@ -368,10 +368,11 @@ var _ = resp.Cmd
 
 func checkC09(r *verdict.Run) {
 	r.Rule = "(1) random transaction programs on one connection (any order of MULTI/EXEC/DISCARD/WATCH/UNWATCH, queued commands of all families incl. run-time failures, queue-time rejections, blocking commands with timeout 0, SELECT) with a second connection interfering, in lock step with the reference model: QUEUED replies, nothing visible before EXEC (state compared after every step through an observer connection), EXEC array per queued command or EXECABORT/null, state machine after EXEC/DISCARD, misuse errors; " +
-		"(2) isolation under concurrency: 4 writers run transactions that keep invariants (x = y, a token in exactly one key, an element in exactly one list) while 4 readers check them with atomic multi-key reads, with yields injected between the commands of EXEC; (3) canary liveness after every program; (4) commands with locks of their own (CLIENT LIST/INFO/KILL/UNBLOCK, INFO, FLUSHALL, SELECT, KEYS, COPY ...) inside transactions on four connections and outside on four others at the same time: every command must be answered; (6) directed programs in lock step with the model: every blocking command (timeouts 0 and 30, empty and non-empty source) queued after queued SELECTs to a used, a never used and the own database, followed by further queued commands - EXEC must answer everything at once, in order; (5) isolation against other databases: transactions in database 0 (five INCRs of one key must answer consecutive numbers, x and y are set together) while connections in other databases run FLUSHALL (plain, queued, ASYNC) and transactions with a queued SELECT 0. " +
+		"(2) isolation under concurrency: 4 writers run transactions that keep invariants (x = y, a token in exactly one key, an element in exactly one list) while 4 readers check them with atomic multi-key reads, with yields injected between the commands of EXEC; (3) canary liveness after every program; (4) commands with locks of their own (CLIENT LIST/INFO/KILL/UNBLOCK, INFO, FLUSHALL, SELECT, KEYS, COPY ...) inside transactions on four connections and outside on four others at the same time: every command must be answered; (6) directed programs in lock step with the model: every blocking command (timeouts 0 and 30, empty and non-empty source) queued after queued SELECTs to a used, a never used and the own database, followed by further queued commands - EXEC must answer everything at once, in order; (7) a connection that is killed (by itself through a queued CLIENT KILL ... SKIPME no at any position, or by another client while its EXEC is parked between two commands) still runs its whole queue: afterwards all of the transaction's writes are there; (5) isolation against other databases: transactions in database 0 (five INCRs of one key must answer consecutive numbers, x and y are set together) while connections in other databases run FLUSHALL (plain, queued, ASYNC) and transactions with a queued SELECT 0. " +
 		"distinct = (command, MULTI state, outcome class) + EXEC element classes + isolation runs"
 	c09Sequential(r, tierPick(r, 400, 8000))
 	c09BlockingInsideTransactions(r)
+	c09KilledMidTransaction(r)
 	c09Isolation(r, tierPick(r, 6, 40), false)
 	c09Introspection(r, tierPick(r, 8, 60))
 	c09IsolationAcrossDatabases(r, tierPick(r, 6, 40))
@@ -642,5 +643,119 @@ func c09BlockingInsideTransactions(r *verdict.Run) {
 			r.Distinct(fmt.Sprintf("blocking-in-exec/%s/prelude-%d/timeout-%s", f.name, pi, to))
 		}
 		d.close()
+	}
+}
+
+// c09KilledMidTransaction: EXEC runs the whole queue as one unit also when the connection is closed from the server
+// side while it runs - by a CLIENT KILL of itself queued at any position, or by another client's CLIENT KILL that lands
+// while EXEC is between two commands. Afterwards either none or all of the transaction's writes are visible; since EXEC
+// had started, all of them.
+func c09KilledMidTransaction(r *verdict.Run) {
+	c, err := startChild(false)
+	if err != nil {
+		r.Inconclusive("cannot start child")
+		return
+	}
+	defer func() { c.Stop() }()
+	e, err := startEmu(c, "")
+	if err != nil {
+		r.Inconclusive("infra: " + err.Error())
+		return
+	}
+	obs, err := e.dial()
+	if err != nil {
+		return
+	}
+	defer obs.Close()
+	const nw = 6
+	check := func(name, tag string, rep map[string]any) {
+		var missing []string
+		for i := 0; i < nw; i++ {
+			v, _ := obs.Do("GET", fmt.Sprintf("kt:%d", i))
+			if v.Text() != tag {
+				missing = append(missing, fmt.Sprintf("kt:%d=%s", i, v))
+			}
+		}
+		r.Eval(1)
+		if len(missing) > 0 && len(missing) < nw {
+			r.Report("txn/killed-connection/transaction-half-applied/"+name, fmt.Sprintf("%s: the transaction writes %d keys with the value %q; afterwards %v differ - EXEC did not run its queue as one unit", name, nw, tag, missing), rep)
+		} else if len(missing) == nw {
+			r.Report("txn/killed-connection/transaction-not-applied/"+name, fmt.Sprintf("%s: EXEC had started but none of its %d writes is there", name, nw), rep)
+		} else {
+			r.Distinct("killed-mid-transaction/" + name)
+		}
+	}
+	// (a) the kill is one of the queued commands
+	for pos := 0; pos <= nw; pos++ {
+		for _, form := range []string{"id-skipme-no", "addr-skipme-no"} {
+			cn, err := e.dial()
+			if err != nil {
+				return
+			}
+			id, _ := cn.ClientID()
+			tag := fmt.Sprintf("self-%d-%s", pos, form)
+			kill := []string{"CLIENT", "KILL", "ID", strconv.FormatInt(id, 10), "SKIPME", "no"}
+			if form == "addr-skipme-no" {
+				kill = []string{"CLIENT", "KILL", "ADDR", cn.C.LocalAddr().String(), "SKIPME", "no"}
+			}
+			prog := [][]string{{"MULTI"}}
+			for i := 0; i <= nw; i++ {
+				if i == pos {
+					prog = append(prog, kill)
+				}
+				if i < nw {
+					prog = append(prog, []string{"SET", fmt.Sprintf("kt:%d", i), tag})
+				}
+			}
+			prog = append(prog, []string{"EXEC"})
+			var b []byte
+			for _, p := range prog {
+				b = append(b, resp.Cmd(p...)...)
+			}
+			cn.Send(b)
+			// the connection is closed by the server; read until it is
+			for {
+				if _, _, err := cn.ReadValue(3 * time.Second); err != nil {
+					break
+				}
+			}
+			cn.Close()
+			check(fmt.Sprintf("self-kill-at-position-%d/%s", pos, form), tag, map[string]any{"program": progString(prog)})
+		}
+	}
+	// (b) another client kills the connection while its EXEC is parked between two commands
+	aux, err := e.dial()
+	if err != nil {
+		return
+	}
+	defer aux.Close()
+	for round := 0; round < 4; round++ {
+		w, err := newWaiter(e)
+		if err != nil {
+			return
+		}
+		s := &c11Scn{r: r, c: c, e: e, aux: aux, name: fmt.Sprintf("killed-during-exec/%d", round)}
+		tag := fmt.Sprintf("other-%d", round)
+		w.cn.Do("MULTI")
+		for i := 0; i < nw; i++ {
+			w.cn.Do("SET", fmt.Sprintf("kt:%d", i), tag)
+		}
+		tok, parked := s.parkAt(w, "exec:between-commands", []string{"EXEC"})
+		if !parked {
+			r.Inconclusive("hook point exec:between-commands not reached")
+			w.cn.Close()
+			continue
+		}
+		kill := []string{"CLIENT", "KILL", "ID", strconv.FormatInt(w.id, 10)}
+		if round%2 == 1 {
+			kill = []string{"CLIENT", "KILL", "ADDR", w.cn.C.LocalAddr().String()}
+		}
+		kv := s.do(kill...)
+		time.Sleep(20 * time.Millisecond)
+		s.release(tok)
+		w.finished(3 * time.Second)
+		time.Sleep(50 * time.Millisecond)
+		w.cn.Close()
+		check(fmt.Sprintf("killed-by-another-client-during-exec/%s", strings.ToLower(kill[2])), tag, map[string]any{"kill_reply": kv.String(), "script": s.log})
 	}
 }
